@@ -71,10 +71,11 @@ Report(pred, id, p, mp) ==
 Judge(id, p) ==
     LET q  == oq[id]
         mp == T!Present(id)
-    IN /\ ((q # NONE /\ now <= q + ttl) => p)             \/ Report("P_C02_Remembered", id, p, mp)
-       /\ ((q = NONE \/ now > q + ttl + sweep) => ~p)      \/ Report("P_C02_Forgotten", id, p, mp)
-       /\ (olast[id].t = now => p = olast[id].p)           \/ Report("P_C02_AddNewIffAbsent", id, p, mp)
-       /\ (drift \/ p = mp)                                \/ Report("P_C02_ModelAgreement", id, p, mp)
+    IN \* IF, not a disjunction: TLC would explore (and print) both disjuncts of an action-level "\/"
+       /\ IF (q # NONE /\ now <= q + ttl) => p          THEN TRUE ELSE Report("P_C02_Remembered", id, p, mp)
+       /\ IF (q = NONE \/ now > q + ttl + sweep) => ~p   THEN TRUE ELSE Report("P_C02_Forgotten", id, p, mp)
+       /\ IF olast[id].t = now => p = olast[id].p        THEN TRUE ELSE Report("P_C02_AddNewIffAbsent", id, p, mp)
+       /\ IF drift \/ p = mp                             THEN TRUE ELSE Report("P_C02_ModelAgreement", id, p, mp)
        /\ drift' = (drift \/ p # mp)
 
 TAdd ==
